@@ -32,6 +32,11 @@ NOT_FUNCS = {"np.bitwise_not", "numpy.bitwise_not", "np.logical_not",
 
 
 MUTANTS = [
+    ("coordinate columns stacked whole (mask dropped)",
+     "AegeanTools/regions.py",
+     "            sky = np.array(list(zip(ra, dec))).reshape(-1, 2)",
+     "            sky = np.array([ra, dec], dtype=float).T.reshape(-1, 2)",
+     "C10-R10"),
     ("image copied to single precision before masking", "AegeanTools/MIMAS.py",
      "        data = np.squeeze(im[0].data)\n",
      "        data = np.array(np.squeeze(im[0].data), dtype=np.float32)\n",
@@ -684,6 +689,38 @@ def run(ctx):
         "copies the image into a narrower floating-point type (a float64 "
         "or 32-bit integer image would come back rounded to 7 digits)",
         "a narrow dtype is used on the way of the pixel values", floor=2)
+    # ---------------------------------------------------------------- R10
+    ctx.rule("C10-R10", "masked table cells are undefined coordinates: "
+             "radec2sky receives table columns (possibly masked) and must "
+             "turn masked entries into NaN -- it iterates them element-wise "
+             "(zip: a masked element converts to nan) or fills them "
+             "explicitly; handing the whole columns to np.array / asarray / "
+             "stack / column_stack drops the mask and exposes the hidden "
+             "fill value as a position (numpy contract on masked arrays)")
+    r2s_ = prog.func("regions.Region.radec2sky")
+    cparams = [p_ for p_ in r2s_.params if p_ not in ("self", "cls")][:2]
+    whole = []
+    for c in walk_no_nested(r2s_.node):
+        if isinstance(c, ast.Call) and norm(c.func).split(".")[-1] in (
+                "array", "asarray", "asanyarray", "stack", "column_stack",
+                "vstack", "hstack", "concatenate", "transpose"):
+            for a in c.args[:1]:
+                elts = a.elts if isinstance(a, (ast.List, ast.Tuple)) else [a]
+                if any(isinstance(e, ast.Name) and e.id in cparams
+                       for e in elts) and not any(
+                           isinstance(x, ast.Call) and
+                           norm(x.func).split(".")[-1] in ("filled", "zip")
+                           for x in ast.walk(a)):
+                    whole.append(c)
+    tried = [h for t in walk_no_nested(r2s_.node) if isinstance(t, ast.Try)
+             for h in t.handlers for x in ast.walk(h)]
+    whole = [c for c in whole if not any(c is x for x in tried)]
+    ctx.check("C10-R10", r2s_, "columns converted element-wise in radec2sky",
+              not whole, "`%s` converts the whole coordinate columns at "
+              "once: a masked cell (blank in a csv catalogue) loses its mask "
+              "and is tested at its hidden value, e.g. (0, 0)" %
+              (norm(whole[0], 60) if whole else ""),
+              node=whole[0] if whole else r2s_.node)
     # ---------------------------------------------------------------- R8
     ctx.rule("C10-R8", "undefined coordinates are never inside: the "
              "non-finite mask of Region.sky_within is taken from values that "
